@@ -51,7 +51,12 @@ class Unserialisable(object):
         raise RuntimeError("cannot serialise this")
 
 
+class MethodAborted(BaseException):
+    """an exception of a registered method that does not derive from Exception (like SystemExit, KeyboardInterrupt)"""
+
+
 EXC = {c.__name__: c for c in [
+    SystemExit, KeyboardInterrupt, MethodAborted,
     ValueError, KeyError, IndexError, ZeroDivisionError, RuntimeError, OSError, AttributeError, LookupError,
     ArithmeticError, AssertionError, NotImplementedError, NameError, OverflowError, StopIteration, UnicodeError,
     EOFError, Exception, TypeError, CustomError]}
@@ -178,7 +183,7 @@ class Runtime(object):
         raised, text = None, None
         try:
             text = self.disp._marshaled_dispatch(body, self.dm)
-        except Exception as ex:   # noqa
+        except BaseException as ex:   # noqa  (a method may raise SystemExit & co: whatever escapes is an observation)
             raised = ex
         drained_ok = self.drain()
         with self.lock:
